@@ -240,6 +240,17 @@ class Compose(Machine):
             x = happly(p, x) if kind == "H" else np.asarray(p.apply(x.copy()))
         return x
 
+    def _chain_ok(self, prims):
+        """The homogeneous members of a non-homogeneous composite, multiplied up, must stay as well conditioned as
+        a single admitted matrix (two implementations of x -> Lx + t differ by ~cond * eps)."""
+        Hc = np.eye(self.d + 1)
+        for kind, p in prims:
+            if kind == "H":
+                Hc = p @ Hc
+                if not self._ok_numerics(Hc):
+                    return False
+        return True
+
     def _cliff(self, prims):
         """True if the probe points reach a thin-plate spline far outside its landmark region: r^2 log r^2
         with weights that sum to zero cancels catastrophically there (observed: 1.6e-6 relative between two
@@ -352,7 +363,7 @@ class Compose(Machine):
                 return
         else:
             prims = (b.prim_list() + a.prim_list()) if after else (a.prim_list() + b.prim_list())
-            if len(prims) > 8 or self._cliff(prims):
+            if len(prims) > 8 or self._cliff(prims) or not self._chain_ok(prims):
                 return
         da, db = walker.digest(a.obj), walker.digest(b.obj)
         try:
@@ -408,8 +419,10 @@ class Compose(Machine):
             H = None
             if a.H is None and len(a.prims) + len(b.prim_list()) > 8:
                 return
-            if a.H is None and self._cliff((b.prim_list() + a.prims) if after else (a.prims + b.prim_list())):
-                return
+            if a.H is None:
+                newp = (b.prim_list() + a.prims) if after else (a.prims + b.prim_list())
+                if self._cliff(newp) or not self._chain_ok(newp):
+                    return
         da, db = walker.digest(a.obj), walker.digest(b.obj)
         name = "%s_%s" % (type(a.obj).__name__, type(b.obj).__name__)
         try:
